@@ -294,6 +294,9 @@ GM                   = {gm:11.4f} [km**3/s**2]
                 date = man.date
                 duration = 0
 
+            # Same time system as the state vector (declared in the metadata)
+            date = date.change_scale(cart.date.scale.name)
+
             text += """{comment}
 MAN_EPOCH_IGNITION   = {date:{dfmt}}
 MAN_DURATION         = {duration:0.3f} [s]
@@ -417,6 +420,9 @@ def _dumps_xml(data, *, kep=True, **kwargs):
             else:
                 date = man.date
                 duration = 0
+
+            # Same time system as the state vector (declared in the metadata)
+            date = date.change_scale(data.date.scale.name)
 
             man_epoch = ET.SubElement(mans, "MAN_EPOCH_IGNITION")
             man_epoch.text = date.strftime(DATE_FMT_DEFAULT)
